@@ -10,11 +10,13 @@ Extras == [z : BOOLEAN, mark : BOOLEAN, many : BOOLEAN]
 \* C05: one segment per request
 AlignedCuts(rs) == {EndPos(rs, k) : k \in 1..(Len(rs) - 1)}
 
-\* C06 quantifies over sequences of (well-formed) requests; refused requests are part of C05's histories only
-GChooseReqs == /\ pc = "setup-reqs" /\ \E rs \in ReqSeqs : (reqs' = rs /\ (MODE = "c06" => \A k \in DOMAIN rs : ~rs[k].bad))
+\* C06: a refused request may sit anywhere in the sequence and share a segment with what came before it, but a segment ends where it
+\* ends (where a refused request ends is not defined by its bytes, so whatever is read together with it may go with it: outside the quantifier)
+BadEnds(rs) == {EndPos(rs, k) : k \in {j \in 1..(Len(rs) - 1) : rs[j].bad}}
+GChooseReqs == /\ pc = "setup-reqs" /\ \E rs \in ReqSeqs : reqs' = rs
                /\ pc' = "setup-cuts" /\ UNCHANGED <<cuts, inbox, buf, cur, resp, dropped>>
 GChooseCuts == /\ pc = "setup-cuts"
-               /\ \E cs \in (IF MODE = "c05" THEN {AlignedCuts(reqs)} ELSE CutSets(Len(Stream(reqs)) - 1, MaxCuts)) :
+               /\ \E cs \in (IF MODE = "c05" THEN {AlignedCuts(reqs)} ELSE {c \in CutSets(Len(Stream(reqs)) - 1, MaxCuts) : BadEnds(reqs) \subseteq c}) :
                      (cuts' = cs /\ inbox' = Segments(reqs, cs))
                /\ pc' = "read" /\ UNCHANGED <<reqs, buf, cur, resp, dropped>>
 GNext == GChooseReqs \/ GChooseCuts \/ Step
